@@ -39,6 +39,33 @@ theorem invL_onPut (c : Cfg) (h12 : c.fix12 = true) (h13 : c.fix13 = true) (hcb 
   · exact invL_closeP c _ p hr.1 hr.2.a hr.2.u hr.2.lt hr.2.nl
   · exact hr.1
 
+/-- the invariant together with the liveness facts of the acting connection, carried through the
+    queries of one PUT -/
+theorem invL_putAll (c : Cfg) (h12 : c.fix12 = true) (hcb : ∀ x, c.cb x = Callback.none) (s : St) (p : ObjId)
+    (qs : List (Cid × Option Bool × Option Val)) (h : InvL c s) (hl : Live s p) :
+    InvL c (putAll c s p qs) ∧ Live (putAll c s p qs) p := by
+  apply putAll_pres (fun t => InvL c t ∧ Live t p) c p
+  · intro t x ev val ht
+    exact ⟨invL_putChars c h12 hcb t p x ev val ht.1 ht.2,
+           live_of_rel (rel_putChars c t p x ev val) (invA_putChars c t p x ev val ht.2.a) ht.2⟩
+  · exact ⟨h, hl⟩
+
+theorem invL_onPutMany (c : Cfg) (h12 : c.fix12 = true) (h13 : c.fix13 = true) (hcb : ∀ x, c.cb x = Callback.none) (s : St) (p : ObjId) (qs cl)
+    (h : InvL c s) (hl : Live s p) : InvL c (onPutMany c s p qs cl).1 := by
+  simp only [onPutMany]
+  have hr : InvL c (if (s.obj p).verified then respond (putAll c s p qs) p 204 Body.none
+           else respond s p 401 Body.none).1 ∧
+      Live (if (s.obj p).verified then respond (putAll c s p qs) p 204 Body.none
+           else respond s p 401 Body.none).1 p := by
+    split
+    · have ha := invL_putAll c h12 hcb s p qs h hl
+      refine ⟨invL_respond c _ p _ _ ha.1, ?_⟩
+      exact live_of_rel (rel_respond _ p 204 Body.none) (invA_respond _ p 204 Body.none ha.2.a) ha.2
+    · exact ⟨invL_respond c _ p _ _ h, live_of_rel (rel_respond s p 401 Body.none) (invA_respond _ p 401 Body.none hl.a) hl⟩
+  split
+  · exact invL_closeP c _ p hr.1 hr.2.a hr.2.u hr.2.lt hr.2.nl
+  · exact hr.1
+
 theorem invL_setPrepared (c : Cfg) (s : St) (f : Addr → Option (List Pid)) (h : InvL c s) : InvL c { s with prepared := f } := by
   intro q x hs
   exact lok_frame c s _ q x (h q x hs) rfl rfl (fun g => g) rfl rfl rfl (fun g => g)
@@ -52,6 +79,7 @@ theorem invL_onReq (c : Cfg) (h12 : c.fix12 = true) (h13 : c.fix13 = true) (hcb 
     · exact invL_closeP c s p h hl.a hl.u hl.lt hl.nl
     · exact invL_closeP c s p h hl.a hl.u hl.lt hl.nl
     · exact invL_onPut c h12 h13 hcb s p _ _ _ _ h hl
+    · exact invL_onPutMany c h12 h13 hcb s p _ _ h hl
     · split <;> exact invL_respond c _ p _ _ h
     · split
       · exact invL_respond c _ p _ _ (invL_setPrepared c s _ h)
@@ -145,6 +173,18 @@ theorem hf_onReq (c : Cfg) (s : St) (p : ObjId) (r : Req) : (onReq c s p r).1.ha
            else respond s p 401 Body.none).1.handoffs = s.handoffs := by
         split
         · rw [hf_respond, hf_putChars]
+        · rfl
+      split
+      · rw [hf_closeP]; exact hr
+      · exact hr
+    · rename_i qs cl
+      simp only [onPutMany]
+      have hr : (if (s.obj p).verified then respond (putAll c s p qs) p 204 Body.none
+           else respond s p 401 Body.none).1.handoffs = s.handoffs := by
+        split
+        · rw [hf_respond]
+          exact putAll_pres (fun t => t.handoffs = s.handoffs) c p
+            (fun t x ev val ht => by rw [hf_putChars]; exact ht) s qs rfl
         · rfl
       split
       · rw [hf_closeP]; exact hr
